@@ -1,6 +1,7 @@
 package main
 
 import (
+	"syscall"
 	"time"
 	"sync"
 	"os/exec"
@@ -933,14 +934,64 @@ func runC11Pipes(res *Result, r *Rng) {
 	}
 	runs := countN(res.Tier, 3, 40)
 	for run := 0; run < runs; run++ {
-		cmd := exec.Command(exe, "-no-color", "-rebase=false", "-parse=false")
-		stdin, _ := cmd.StdinPipe()
+		// how the live stream reaches the command: its stdin, a named pipe given as the file
+		// argument (pp <(prog 2>&1), mkfifo), or /dev/stdin given as the file argument
+		mode := []string{"stdin", "fifo", "/dev/stdin"}[run%3]
+		args := []string{"-no-color", "-rebase=false", "-parse=false"}
+		var stdin io.WriteCloser
+		var cmd *exec.Cmd
+		fifo := filepath.Join(tmp, fmt.Sprintf("live%d.fifo", run))
+		switch mode {
+		case "fifo":
+			if err := syscall.Mkfifo(fifo, 0o600); err != nil {
+				mode = "stdin"
+			} else {
+				args = append(args, fifo)
+			}
+		case "/dev/stdin":
+			if _, err := os.Stat("/dev/stdin"); err != nil {
+				mode = "stdin"
+			} else {
+				args = append(args, "/dev/stdin")
+			}
+		}
+		cmd = exec.Command(exe, args...)
+		if mode != "fifo" {
+			stdin, _ = cmd.StdinPipe()
+		}
 		stdout, _ := cmd.StdoutPipe()
 		cmd.Stderr = io.Discard
 		if err := cmd.Start(); err != nil {
 			res.Extra["pipes"] = "cannot start the command: " + err.Error()
 			return
 		}
+		if mode == "fifo" {
+			// opening the write side blocks until the command has opened the read side
+			opened := make(chan *os.File, 1)
+			go func() {
+				f, err := os.OpenFile(fifo, os.O_WRONLY, 0)
+				if err != nil {
+					opened <- nil
+					return
+				}
+				opened <- f
+			}()
+			select {
+			case f := <-opened:
+				if f == nil {
+					cmd.Process.Kill()
+					cmd.Wait()
+					continue
+				}
+				stdin = f
+			case <-time.After(10 * time.Second):
+				cmd.Process.Kill()
+				cmd.Wait()
+				res.Violation(Finding{Stream: "pp on pipes", What: "pp did not open the named pipe given as its file argument within 10 s", Op: map[string]interface{}{"command": "pp " + strings.Join(args, " ")}})
+				return
+			}
+		}
+		res.Count("pp-pipe-mode:" + mode)
 		var mu sync.Mutex
 		var got bytes.Buffer
 		done := make(chan struct{})
@@ -1012,7 +1063,7 @@ func runC11Pipes(res *Result, r *Rng) {
 		cmd.Wait()
 		res.Count("pp-pipe-runs")
 		if violation != "" {
-			res.Violation(Finding{Stream: "pp on pipes", What: violation, Op: map[string]interface{}{"command": "pp -no-color -rebase=false -parse=false", "run": run}})
+			res.Violation(Finding{Stream: "pp on pipes", What: violation + " (input through " + mode + ")", Op: map[string]interface{}{"command": "pp " + strings.Join(args, " "), "run": run, "input": mode}})
 			return
 		}
 	}
